@@ -76,6 +76,39 @@ theorem ranks_cover_exactly_once_limit (layout : List Nat) (world : Nat) (hw : 0
   rw [e1, e2, List.drop_zero, volsFrom_take, volsFrom_flatMap_indices, List.range_eq_range',
     volsFrom_length, ← List.take_eq_take_min]
 
+/-- how many volumes `filenames[:limit]` keeps, with Python's semantics: `None`/0 = all, a positive limit = the
+first `limit` (all if there are fewer), a negative limit = all but the last `-limit` -/
+def keptVolumes (len : Nat) (limit : Int) : Nat :=
+  if limit = 0 then len else if limit < 0 then (limit + len).toNat else min limit.toNat len
+
+theorem applyLimit_eq_take {α} (xs : List α) (limit : Int) :
+    applyLimit xs limit = xs.take (keptVolumes xs.length limit) := by
+  unfold applyLimit keptVolumes
+  by_cases h0 : limit = 0
+  · simp [h0]
+  · simp only [h0, if_false, pySlice, slice]
+    have e1 : (if (0 : Int) < 0 then max ((0 : Int) + ↑xs.length) 0 else min 0 ↑xs.length).toNat = 0 := by
+      simp only [Int.lt_irrefl, if_false]; omega
+    rw [e1, List.drop_zero]
+    congr 1
+    by_cases hneg : limit < 0
+    · simp only [hneg, if_true]; omega
+    · simp only [hneg, if_false]; omega
+
+/-- **for every value of `limit_number_of_volumes`** the ranks together cover exactly the indices of the kept
+volumes, each once, in order (generalises `ranks_cover_exactly_once` and `ranks_cover_exactly_once_limit`;
+a limit larger than the number of volumes keeps all, a negative one drops volumes from the end) -/
+theorem ranks_cover_exactly_once_any_limit (layout : List Nat) (world : Nat) (hw : 0 < world) (limit : Int) :
+    (List.range world).flatMap (fun r => seqSampler layout world r limit) =
+      List.range (layout.take (keptVolumes layout.length limit)).sum := by
+  unfold seqSampler
+  rw [← List.flatMap_assoc, rank_volumes_cover layout world hw limit, applyLimit_eq_take, volumes,
+    volsFrom_take, volsFrom_flatMap_indices, List.range_eq_range', volsFrom_length]
+
+example : keptVolumes 4 0 = 4 ∧ keptVolumes 4 2 = 2 ∧ keptVolumes 4 9 = 4 ∧ keptVolumes 4 (-1) = 3 ∧
+    keptVolumes 4 (-7) = 0 := by decide
+example : (List.range 2).map (fun r => seqSampler [2, 3, 1, 2] 2 r 3) = [[0, 1, 2, 3, 4], [5]] := by decide
+
 /-- rank `r` receives the contiguous block of volumes `s r … s (r+1) - 1` (chunk boundaries `s`), hence
 the contiguous block of dataset indices starting after the volumes before it: each volume's slices
 in ascending order, volumes in dataset order. -/
@@ -418,6 +451,22 @@ theorem infinite_get (size : Nat) (perms : List (List Nat)) (hp : ∀ p ∈ perm
       rw [show (e + 1) * size + j - p.length = e * size + j by rw [hlen, Nat.add_mul]; omega]
       exact ih (fun q hq => hp q (by simp [hq])) e
 
+/-- **Dealing the rank streams out round-robin reproduces the shared stream**: position `n` of the stream is
+element `n / world` of rank `n % world`.  Nothing is padded or duplicated when the dataset size is not a multiple of
+the world size — a rank's stream simply runs on into the next epoch's permutation. -/
+theorem dist_interleave_reconstructs (perms : List (List Nat)) (world : Nat) (hw : 0 < world) (n : Nat) :
+    (distStream perms (n % world) world)[n / world]? = (infinitePrefix perms)[n]? := by
+  rw [dist_stream_get perms _ world hw, Nat.mul_comm, Nat.mod_add_div]
+
+/-- hence, with `infinite_get`: element `j` of epoch `e` goes to rank `(e·size + j) % world` — every element of
+every epoch permutation to exactly one rank (`strided_partition`), for every epoch, shuffled or not -/
+theorem dist_epoch_element_owner (size : Nat) (perms : List (List Nat)) (hp : ∀ p ∈ perms, p.length = size)
+    (world : Nat) (hw : 0 < world) (e j : Nat) (hj : j < size) :
+    (distStream perms ((e * size + j) % world) world)[(e * size + j) / world]? = (perms[e]?).bind (·[j]?) := by
+  rw [dist_interleave_reconstructs perms world hw, infinite_get size perms hp e j hj]
+
+example : (distStream [[2, 0, 1], [1, 2, 0]] ((1 * 3 + 1) % 2) 2)[(1 * 3 + 1) / 2]? = some 2 := by decide
+
 /-! ## `len()`: `math.ceil(n / bs)` in binary64 versus the integer ceiling
 
 The code computes the true quotient in binary64 and takes `math.ceil`.  Write `F = m / 2^s` for the computed
@@ -469,5 +518,76 @@ theorem float_ceil_of_sandwich (m s q t : Nat) (hq : 0 < q)
   · rw [Nat.add_mul, Nat.one_mul]; omega
 
 example : ceilDiv 7 2 = 4 ∧ ((4 - 1) * 2 ^ 1 + 1) * 2 ^ 1 ≤ 7 * 2 ^ 1 ∧ 7 ≤ 4 * 2 ^ 1 := by decide
+
+/-- a power of two in `[bs, 2·bs)` -/
+theorem exists_pow_two_between (bs : Nat) (hbs : 0 < bs) : ∃ t, bs ≤ 2 ^ t ∧ 2 ^ t < 2 * bs := by
+  have h1 : 2 ^ bs.log2 ≤ bs := Nat.log2_self_le (by omega)
+  have h2 : bs < 2 ^ (bs.log2 + 1) := Nat.lt_log2_self
+  have h3 : 2 ^ (bs.log2 + 1) = 2 * 2 ^ bs.log2 := by rw [Nat.pow_succ, Nat.mul_comm]
+  by_cases he : 2 ^ bs.log2 = bs
+  · exact ⟨bs.log2, by omega, by omega⟩
+  · exact ⟨bs.log2 + 1, by omega, by omega⟩
+
+/-- **`math.ceil(n / bs)` computed in binary64 is the integer ceiling for every `n < 2^52`**, for every
+rounding of the quotient that is monotone and exact on representable values.  The computed quotient is
+`F = m / 2^s` (every finite float is such a dyadic).  `hlow`: every dyadic `a / 2^t` with `a ≤ 2^53`
+(53-bit significand: representable) that does not exceed `n / bs` does not exceed `F`; `hup`: the mirror image.
+Both follow from correct rounding (round-to-nearest is monotone and fixes representable values); nothing else
+is assumed — in particular not that the quotient is computed exactly. -/
+theorem float_ceil_eq (n bs : Nat) (hbs : 0 < bs) (hn : n < 2 ^ 52) (m s : Nat)
+    (hlow : ∀ a t, a ≤ 2 ^ 53 → a * bs ≤ n * 2 ^ t → a * 2 ^ s ≤ m * 2 ^ t)
+    (hup : ∀ a t, a ≤ 2 ^ 53 → n * 2 ^ t ≤ a * bs → m * 2 ^ t ≤ a * 2 ^ s) :
+    ceilDiv m (2 ^ s) = ceilDiv n bs := by
+  have hP : 0 < 2 ^ s := Nat.pow_pos (by decide)
+  have h53 : (2 : Nat) ^ 53 = 2 * 2 ^ 52 := by decide
+  -- q = ⌈n / bs⌉ with (q - 1)·bs < n ≤ q·bs  (or n = 0 = q)
+  have hq1 : n ≤ ceilDiv n bs * bs := by
+    unfold ceilDiv
+    have := Nat.div_add_mod (n + bs - 1) bs
+    have := Nat.mod_lt (n + bs - 1) hbs
+    rw [Nat.mul_comm]; omega
+  have hq2 : 0 < n → (ceilDiv n bs - 1) * bs < n ∧ 0 < ceilDiv n bs := by
+    intro hn0
+    unfold ceilDiv
+    have h1 : 1 ≤ (n + bs - 1) / bs := (Nat.le_div_iff_mul_le hbs).mpr (by omega)
+    have h2 := Nat.div_mul_le_self (n + bs - 1) bs
+    have h3 : ((n + bs - 1) / bs - 1) * bs = (n + bs - 1) / bs * bs - bs := by
+      rw [Nat.sub_mul, Nat.one_mul]
+    omega
+  have hqle : ceilDiv n bs ≤ n := by
+    unfold ceilDiv
+    rcases Nat.eq_zero_or_pos n with h0 | h0
+    · subst h0; simp; omega
+    · exact Nat.div_le_of_le_mul (by
+        have : n ≤ bs * n := Nat.le_mul_of_pos_left n hbs
+        have : 1 ≤ bs * n := by omega
+        have h4 : bs + n ≤ bs * n + 1 := by
+          cases bs with
+          | zero => omega
+          | succ b =>
+            cases n with
+            | zero => omega
+            | succ k => rw [Nat.succ_mul, Nat.mul_succ]; omega
+        omega)
+  -- upper side: q is representable and ≥ n / bs
+  have hU : m ≤ ceilDiv n bs * 2 ^ s := by
+    have := hup (ceilDiv n bs) 0 (by omega) (by simpa using hq1)
+    simpa using this
+  rcases Nat.eq_zero_or_pos n with h0 | h0
+  · subst h0
+    have hq0 : ceilDiv 0 bs = 0 := ceilDiv_zero bs hbs
+    rw [hq0] at hU ⊢
+    have : m = 0 := by omega
+    subst this
+    exact ceilDiv_zero _ hP
+  · obtain ⟨hq3, hq4⟩ := hq2 h0
+    obtain ⟨t, ht1, ht2⟩ := exists_pow_two_between bs hbs
+    have hrep := float_ceil_witness_representable n bs (ceilDiv n bs) t hn (Nat.le_of_lt hq3) ht2
+    have hwit := float_ceil_witness_le n bs (ceilDiv n bs) t hq3 ht1
+    exact float_ceil_of_sandwich m s (ceilDiv n bs) t hq4 (hlow _ t hrep hwit) hU
+
+-- the hypotheses are satisfiable: an exactly representable quotient (7 / 2 = 3.5 = 7 / 2^1)
+example : ceilDiv 7 (2 ^ 1) = ceilDiv 7 2 :=
+  float_ceil_eq 7 2 (by decide) (by decide) 7 1 (fun a t _ h => by simpa using h) (fun a t _ h => by simpa using h)
 
 end DirectVerif.C13
